@@ -16,8 +16,8 @@ type G struct {
 }
 
 var (
-	tblNames  = []string{"t1", "t2", "users", "Posts", "a", "b", "order_items", "t_3_x"}
-	colNames  = []string{"id", "a", "b", "c", "a_b", "ab", "name", "val", "x_note", "Up_ID", "k", "n"}
+	tblNames  = []string{"t1", "t2", "users", "Posts", "a", "b", "order_items", "t_3_x", "order", "group"}
+	colNames  = []string{"id", "a", "b", "c", "a_b", "ab", "name", "val", "x_note", "Up_ID", "k", "n", "key", "from", "index"}
 	typeKeys  = []string{"integer", "int", "bigint", "text", "varchar(255)", "real", "boolean", "numeric", "decimal(10,2)", "datetime", "blob", "json", "uuid", "double", "date"}
 	strictTys = []string{"integer", "int", "real", "text", "blob"}
 	actions   = []string{"", "NO ACTION", "CASCADE", "SET NULL", "SET DEFAULT", "RESTRICT"}
